@@ -371,10 +371,13 @@ def content_equality(rep: Report, prog: Program) -> None:
     ok = False
     for d in idx:
         g = d.generators[0]
-        if isinstance(g.iter, ast.Call) and callee_last(g.iter) == 'enumerate' and norm(g.iter.args[0]) in (p0, f"{init.positional_params()[0]}.values") and not g.ifs \
+        uses_p0 = sum(1 for x in own_nodes(init.node, into_lambdas=True) if isinstance(x, ast.Name) and x.id == p0 and isinstance(x.ctx, ast.Load))
+        src_ok = norm(g.iter.args[0]) == f"{init.positional_params()[0]}.values" or (norm(g.iter.args[0]) == p0 and uses_p0 == 1) if isinstance(g.iter, ast.Call) and g.iter.args else False
+        if isinstance(g.iter, ast.Call) and callee_last(g.iter) == 'enumerate' and src_ok and not g.ifs \
                 and isinstance(g.target, ast.Tuple) and norm(d.key) == norm(g.target.elts[1]) and norm(d.value) == norm(g.target.elts[0]):
             ok = True
-    rep.ob(rule, init.fq(), 'value index = {v: i for (i, v) in enumerate(values)} over the same sequence as self.values', init.loc(), ok, '')
+    rep.ob(rule, init.fq(), 'value index = {v: i for (i, v) in enumerate(<the stored list>)}: the same sequence as self.values, not a second pass over the argument', init.loc(), ok,
+           '' if ok else 'the index is not built from the stored value list (an iterator argument is empty on its second pass: contains() and numberize() then disagree)')
     nb, dn = fd.methods.get('numberize'), fd.methods.get('denumberize')
     okn = nb is not None and any(isinstance(n, ast.Return) and isinstance(n.value, ast.Subscript) and norm(n.value.value).endswith('._value_index') for n in own_nodes(nb.node))
     okd = dn is not None and any(isinstance(n, ast.Return) and isinstance(n.value, ast.Subscript) and norm(n.value.value).endswith('.values') for n in own_nodes(dn.node))
@@ -394,6 +397,22 @@ def content_equality(rep: Report, prog: Program) -> None:
             if got != {0 <= v < 2}:
                 bad.append(f"contains({v}) with size 2 gives {sorted(map(str, got))}")
         rep.ob(rule, rc.fq(), 'RangeDomain.contains(v) iff 0 <= v < size', rc.loc(), len(rets) == 1 and not bad, '; '.join(bad) if bad else 'values -2..3 against size 2 agree')
+    # queries of domains and factors keep no hidden state: apply / numberize / denumberize / contains / size / shape read the
+    # object and bind nothing on it (a cache would outlive `fac.weights = ...`)
+    n_q = 0
+    for mod in ('fggs.domains', 'fggs.factors'):
+        for c in prog.module(mod).classes.values():
+            for qn in ('apply', 'numberize', 'denumberize', 'contains', 'size', 'arity', 'to_json', '__eq__', '__ne__', '__hash__'):
+                q = c.methods.get(qn)
+                if q is None or q.self_name() is None:
+                    continue
+                n_q += 1
+                sn = q.self_name()
+                stores = [x for x in ast.walk(q.node) if isinstance(x, ast.Attribute) and isinstance(x.ctx, (ast.Store, ast.Del)) and isinstance(x.value, ast.Name) and x.value.id == sn]
+                stores += [x for x in ast.walk(q.node) if isinstance(x, ast.Call) and callee_last(x) in ('setattr', '__setattr__') and x.args and norm(x.args[0]) == sn]
+                rep.ob(rule, q.fq(), f"{c.name}.{qn} binds nothing on the object", q.loc(), not stores,
+                       'a pure query' if not stores else f"stores `{norm(stores[0])}`: state derived from the weights / values that no setter invalidates")
+    rep.floor('C20-D3 pure queries', n_q, 12)
     ff = prog.cls('fggs.factors', 'FiniteFactor').methods.get('apply')
     if ff is not None:
         selfn, vals = ff.positional_params()[:2]
